@@ -77,18 +77,53 @@ class Builder(object):
         return self.mem(stmt[1], stmt[2])
 
 
-def run(prog, trace=None):
-    """symbolic execution of the program on a fresh real mapper under the current conf settings"""
+def _mems(e, out):
+    """the mem nodes of a real expression, innermost first"""
+    if e._is_mem:
+        _mems(e.a.base, out)
+        out.append(e)
+    elif e._is_slc:
+        _mems(e.x, out)
+    elif e._is_cmp:
+        for p in e.parts.values():
+            _mems(p, out)
+    elif e._is_eqn:
+        if e.l is not None:
+            _mems(e.l, out)
+        _mems(e.r, out)
+    elif e._is_ptr:
+        _mems(e.base, out)
+
+
+def run(prog, trace=None, accesses=None):
+    """symbolic execution of the program on a fresh real mapper under the current conf settings.
+       trace: list receiving the dump of the map after every statement;
+       accesses: list receiving (symbolic pointer, nbytes) of every load and store as the map sees it
+       (the pointer is an expression over the *initial* registers)."""
     b = Builder(prog["be"])
     m = mapper()
     for s in prog["stmts"]:
         rhs = b.expr(s[-1])
         lhs = b.lhs(s)
+        if accesses is not None:
+            ms = []
+            _mems(rhs, ms)
+            if lhs._is_mem:
+                _mems(lhs.a.base, ms)
+            for x in ms:
+                accesses.append((x.a.eval(m), x.size // 8))
+            if lhs._is_mem:
+                accesses.append((lhs.a.eval(m), lhs.size // 8))
         v = m(rhs)
         m[lhs] = v
         if trace is not None:
             trace.append(dump_map(m))
     return m, b
+
+
+def zone_key(p):
+    """the zone a pointer falls into, as MemoryMap.reference sees it"""
+    return "None" if p.base._is_cst else str(p.base)
 
 
 def windows(accesses, pad=8):
@@ -154,7 +189,10 @@ def eval_real(e, st):
         return s2.read(a, e.size // 8, e.endian == -1)
     if e._is_eqn:
         if e.op.unary:
-            raise Unknown(str(e))
+            f = map_ref.UOPSEM.get(e.op.symbol)
+            if f is None:
+                raise Unknown(e.op.symbol)
+            return f(eval_real(e.r, st), e.mask)
         f = map_ref.OPSEM.get(e.op.symbol)
         if f is None:
             raise Unknown(e.op.symbol)
